@@ -24,7 +24,7 @@ EXHAUSTIVE = True
 
 def generate(rng, tier):
     cases = []
-    for _ in range(60 if tier == "quick" else 600):
+    for _ in range(gen.N(tier, 60, 600)):
         S = rng.choice(["Q", "F"])
         if rng.random() < 0.5:
             n = rng.choice([2, 3, 5])
